@@ -327,6 +327,13 @@ def judge_size(sess, res):
         if a['kind'] == 'defvar' and o is not None and len(o) > 1 and int(o[1]) != a['expect_rc']:
             fails.append(dict(kind='def_var-verdict', line=ln, rank=0,
                               detail='def_var of %d bytes returned %s, expected %d' % (a['nbytes'], o[1], a['expect_rc'])))
+        if a['kind'] == 'inq' and o is not None and len(o) > 2 and int(o[1]) == 0:
+            vw = O.FileView(o[2:])
+            if vw.ok and (vw.recsize < 0 or any(x['off'] is not None and x['off'] < 0 for x in vw.vars)):
+                fails.append(dict(kind='end-offset>=2^63:negative-offset-reported', line=ln, rank=0,
+                                  detail='layout accepted by enddef whose sizes do not fit 63 bits: the library reports a negative '
+                                         'record size or variable offset (record size %d, offsets %s)'
+                                         % (vw.recsize, [x['off'] for x in vw.vars])))
         if a['kind'] == 'enddef' and 'size_rule' in a and o is not None and len(o) > 1:
             rc = int(o[1])
             ok, decided = a['size_rule']
